@@ -17,7 +17,7 @@ COQ = VERIF / "coq"
 BUILD_ROOT = VERIF / "build"
 # every process gets its own scratch directory, so that concurrent runs (even of the same property) never share generated files
 BUILD = BUILD_ROOT / f"run_{os.getpid()}"
-EVIDENCE = VERIF / "evidence"
+EVIDENCE = Path(os.environ.get("VERIF_EVIDENCE_DIR") or (VERIF / "evidence"))   # runs against seeded mutants write elsewhere
 CORPUS = VERIF / "corpus"
 OCAMLRUNPARAM = "s=4M,h=256M"   # measured here: coqc spends >90% of its time in heap growth without it
 
